@@ -221,6 +221,20 @@ def run(ctx):
                           "a loop that is not driven by a finite std iterator (back edge into bb%d): it can spin forever on some input" % h,
                           where=b.where(h), fn=b.key, nontrivial=True, sample={"loop": b.key, "why": why})
         ctx.count("loops (%s)" % tag, nloops)
+        # iterations over an integer range: the upper bound must be bounded by an in-memory size
+        nr = 0
+        seen_r = set()
+        for b in bodies:
+            for (bi, path, end) in PN.range_iterations(b):
+                key = (b.key, strip_refs(end) if isinstance(end, tuple) else None)
+                if repr(key) in seen_r:
+                    continue
+                seen_r.add(repr(key))
+                nr += 1
+                ctx.check(PN.bounded(b, end), "K2.range-bound", "%s range iteration bb%d (%s)" % (role_name(roles, b), bi, tag),
+                          "iteration over an integer range whose upper bound %s is not bounded by the size of an in-memory collection: a huge JSON-supplied number makes the call run (practically) forever" % show_expr(strip_refs(end))[:120],
+                          where=b.where(bi), fn=b.key, nontrivial=True)
+        ctx.count("range iterations (%s)" % tag, nr)
 
         # ---------------- K2 recursion
         if is_lib and prof == "debug":
